@@ -84,7 +84,7 @@ func init() {
 		ID:    "C19",
 		Level: "exploration",
 		Rule: "blob programs (View/Slice/Set/Grow/Truncate/Len/Bytes, arguments -2..len+2, aliasing through views) executed on blob.Bytes through the package dispatch functions and on a minimal Blob (fallback paths), compared call by call with a []byte model with explicit aliasing; " +
-			"every one-call program on lengths 0..8 and every two-call program on lengths 0..3 is enumerated, longer programs (<=12 calls, length <=64) are random; a program is non-trivial when it made at least one in-range mutation or aliasing check, distinct by program text",
+			"one- and two-call programs with arguments at the edges of int64, programs over lengths on and around multiples of 4 KiB .. 1 MiB, and a Set whose destination shrinks while it reads its source are directed additions; every one-call program on lengths 0..8 and every two-call program on lengths 0..3 is enumerated, longer programs (<=12 calls, length <=64) are random; a program is non-trivial when it made at least one in-range mutation or aliasing check, distinct by program text",
 		Assumptions: []string{
 			"after a Grow/Truncate the other handles that aliased the resized blob are 'detached': only checked for no-panic (both implementations detach)",
 			"Set at offset==len with a non-empty source may answer n=0,nil or an error",
